@@ -616,7 +616,7 @@ def apalache(ctx, module, init, inv, length=0, cinit=None, timeout=600):
     cmd.append(module + ".tla")
     t = time.time()
     try:
-        rc, out = sh(cmd, cwd=SPEC, timeout=timeout, env={"JVM_ARGS": "-Xmx4g -Djava.io.tmpdir=" + out_dir})
+        rc, out = sh(cmd, cwd=SPEC, timeout=timeout, env={"JVM_ARGS": "-Xmx4g -Djava.io.tmpdir=" + out_dir, "TMPDIR": out_dir})  # TMPDIR: the launcher's mktemp (SANY* directories) stays inside the run directory
     except Broken as ex:
         ctx.apalache.append(dict(module=module, inv=inv, result="timeout", wall_s=round(time.time() - t, 1)))
         log("  APALACHE %s %s: timeout (recorded, not a verdict)" % (module, inv))
